@@ -675,6 +675,36 @@ func (fa *FuncAnalysis) ReturnCases(idx int) []RetCase {
 	return out
 }
 
+// ValueCases: the cases of a value used at instruction `at` (see ReturnCases): one case for a plain value, one per
+// feasible combination of incoming values for a phi, each with the branch facts of its predecessors.
+func (fa *FuncAnalysis) ValueCases(t *Term, at ssa.Instruction) []RetCase {
+	base := fa.GuardsOf(at)
+	if t.Op != "phi" {
+		return []RetCase{{T: t, Guards: base}}
+	}
+	var out []RetCase
+	for _, pc := range fa.PhiCases(t, nil, 0) {
+		gs := append([]Guard{}, base...)
+		for i, pred := range pc.Preds {
+			gs = append(gs, fa.GuardsOfBlock(pred)...)
+			if len(pred.Succs) == 2 && pred.Succs[0] != pred.Succs[1] {
+				for si, sb := range pred.Succs {
+					if sb == pc.Joins[i] {
+						if g, ok := fa.EdgeFact(pred, si); ok {
+							gs = append(gs, g)
+							if iff, isIf := lastInstr(pred).(*ssa.If); isIf {
+								gs = append(gs, fa.phiCorrelated(iff, si == 0, 0)...)
+							}
+						}
+					}
+				}
+			}
+		}
+		out = append(out, RetCase{T: pc.T, Guards: gs})
+	}
+	return out
+}
+
 // HasCaseGuard: some guard of the case satisfies pred.
 func (c RetCase) HasCaseGuard(pred func(Guard) bool) bool {
 	for _, g := range c.Guards {
